@@ -294,6 +294,33 @@ def impl_random(case):
         raw["data"] = [1] * len(raw["data"])          # float samples: only their number is compared
     out["raw"] = raw
     out["nnz_attr"] = int(x1.nnz)
+    # independent replay of the seeded NumPy stream: the positions must be what a fresh default_rng(seed) yields
+    # through the sampler the REQUEST selects (Spec-side choice of branch, uninstrumented kernels)
+    try:
+        el = int(np.prod(shape, dtype=np.intp))
+        n = len(raw["coords"])
+        g = np.random.default_rng(seed)
+
+        def base(k):
+            if k < 2:
+                return np.asarray(g.choice(el, k), dtype=np.intp)
+            return _ORIG["algD"](k, el, g) if el > 10 * k else _ORIG["algA"](k, el, g)
+        if n == el:
+            exp = np.arange(el)
+        elif n < 2:
+            exp = base(n)
+        elif 2 * n > el or el - n < 2:
+            exp = _ORIG["reverse"](base(el - n), el)
+        else:
+            exp = base(n)
+        lin = [int(np.ravel_multi_index(tuple(cc), shape)) if shape else 0 for cc in raw["coords"]]
+        out["linear"] = lin if len(lin) <= 60 else None
+        out["replay_ok"] = lin == [int(v) for v in exp]
+        if not out["replay_ok"]:
+            out["replay_expected"] = [int(v) for v in exp][:60]
+    except Exception as ex:  # noqa: BLE001
+        out["replay_ok"] = None
+        out["replay_error"] = type(ex).__name__ + ": " + str(ex)[:100]
     out["idx_dtype"] = str(x1.coords.dtype) if isinstance(x1, sparse.COO) else None
     out["fill_dtype"] = str(np.asarray(x1.fill_value).dtype)
     out["data_dtype"] = str(x1.dtype)
@@ -492,8 +519,6 @@ def full_cases(tier, rng):
     srcs = ["ndarray", "coo", "gcxs", "dok"]
     for sh in [s for s in SHAPES if not isinstance(s, int)]:
         for src in srcs:
-            if src == "dok" and sh == ():
-                continue          # DOK.from_numpy(0-d) raises (conversion, C05): the source cannot be built
             for op in range(4, 8):
                 for sho in [None, (2, 2), (0, 3), ()]:
                     for fmt in [None] + FMTS:
@@ -519,7 +544,7 @@ def asarray_cases(tier, rng):
             if len(sh) == 2:
                 kinds += ["scipy_csr", "scipy_coo", "scipy_csc"]
             if len(sh) == 0:
-                kinds = ["ndarray", "scalar", "coo"]
+                kinds = ["ndarray", "scalar", "coo", "gcxs", "dok"]
             for kind in kinds:
                 for fmt in FMTS + (["csr", "csc"] if len(sh) == 2 else []):
                     for dt in [None, "int32", "float64"]:
@@ -808,21 +833,14 @@ def campaign(build, tier, seed, report, budget=1):
               f"x=sparse.asarray({oe}, format='{fmt}'{dts}); print(type(x).__name__, x.dtype, '| numpy:', "
               f"np.asarray(a{dts}).dtype)")
         if bad_result(r):
-            V.append(viol("asarray", "value",
-                          "asarray_0d_to_dok_raises" if (not sh and fmt == "dok" and kind in ("ndarray", "scalar"))
-                          else "raises_or_hangs", c, r, rp))
+            V.append(viol("asarray", "value", "raises_or_hangs", c, r, rp))
             continue
         exp_type = {"coo": "COO", "gcxs": "GCXS", "dok": "DOK", "csr": "CSR", "csc": "CSC"}[fmt]
         if r["type"] != exp_type:
-            zero_size = 0 in sh
-            V.append(viol("asarray", "value",
-                          "asarray_zero_size_with_dtype_returns_coo" if zero_size and r["type"] == "COO" else
-                          "asarray_csr_csc_with_dtype_returns_gcxs" if fmt in ("csr", "csc") and r["type"] == "GCXS"
-                          else "format_not_honoured", c, r, rp, detail=f"requested {fmt}, got {r['type']}"))
+            V.append(viol("asarray", "value", "format_not_honoured", c, r, rp,
+                          detail=f"requested {fmt}, got {r['type']}"))
         if r["dtype"] != r["np_dtype"]:
-            sparse_src = kind in ("coo", "gcxs", "dok")
-            V.append(viol("asarray", "value",
-                          "asarray_sparse_input_ignores_dtype" if sparse_src else "asarray_dtype_not_honoured", c, r, rp,
+            V.append(viol("asarray", "value", "asarray_dtype_not_honoured", c, r, rp,
                           detail=f"result dtype {r['dtype']}, np.asarray gives {r['np_dtype']}"))
         diff_only["dtype_checks"] += 1
         lits.append(vpair(lit_dns(r["src"]), "None" if "raw" not in r else f"(Some {lit_raw(r['raw'])})",
@@ -879,8 +897,8 @@ def campaign(build, tier, seed, report, budget=1):
                         V.append(viol("random", "value", "idx_dtype_too_small_accepted", c, r, rp))
                     continue
                 if r["exc"] is not None:
-                    V.append(viol("random", "value", "idx_dtype_on_0d_shape_raises" if not sh else
-                                  "idx_dtype_rejected_although_it_fits", c, r, rp, detail=r["exc"]))
+                    V.append(viol("random", "value", "idx_dtype_rejected_although_it_fits", c, r, rp,
+                                  detail=r["exc"]))
                     continue
                 if fmt == "coo" and r.get("idx_dtype") != idxdt:
                     V.append(viol("random", "value", "idx_dtype_not_honoured", c, r, rp))
@@ -891,6 +909,21 @@ def campaign(build, tier, seed, report, budget=1):
         if r["exc"] is not None:
             outl = "None"
         else:
+            if not r["same"]:
+                V.append(viol("random", "value", "same_seed_different_array", c, r, rp,
+                              detail="three runs with the same seed (instrumented, int seed, Generator) differ"))
+                continue
+            if r.get("replay_ok") is False:
+                V.append(viol("random", "value", "seeded_stream_replay_differs", c, r, rp,
+                              detail=f"stored linear positions {r.get('linear')} but the seeded NumPy stream replayed "
+                                     f"through the sampler the request selects gives {r.get('replay_expected')}"))
+                continue
+            tags.setdefault("random_seeded_stream_replay", {"agrees": 0, "not_replayed": 0})
+            tags["random_seeded_stream_replay"]["agrees" if r.get("replay_ok") else "not_replayed"] += 1
+            if r.get("replay_ok") is None:
+                V.append(viol("random", "representation", None, c, r, rp,
+                              detail="the harness could not replay the seeded stream: " + str(r.get("replay_error"))))
+                continue
             calls = tuple(x[0] for x in r["calls"])
             if calls not in TAG:
                 V.append(viol("random", "representation", None, c, r, rp, detail="unexpected sampler call sequence"))
